@@ -5,10 +5,13 @@ import (
 	"encoding/json"
 	"fmt"
 	"math"
+	"os"
 	"strconv"
 	"strings"
+	"sync"
 	"testing"
 
+	"github.com/tobgu/qframe"
 	"pgregory.net/rapid"
 
 	"verifharness/ev"
@@ -345,4 +348,88 @@ func FuzzC16(f *testing.F) {
 			t.Fatalf("bits %#x: ToJSON ends with %q, want suffix %q", bits, out, want)
 		}
 	})
+}
+
+// TestC16Concurrent: the text of a float does not depend on what else the process is formatting. Eight goroutines
+// write frames of generated floats (all value classes, own seed each) to JSON at the same time, several rounds; every
+// output must be the document assembled with strconv.FormatFloat. Not driven by rapid: the cases come from the shard seed.
+func TestC16Concurrent(t *testing.T) {
+	seed, _ := strconv.ParseUint(os.Getenv("VERIF_SHARD_SEED"), 10, 64)
+	const workers, rounds, rows = 8, 6, 3000
+	nrounds := rounds
+	if tier() == "thorough" {
+		nrounds = 40
+	}
+	type job struct {
+		qf   qframe.QFrame
+		want string
+	}
+	var values int64
+	for round := 0; round < nrounds; round++ {
+		jobs := make([]job, workers)
+		for w := range jobs {
+			rng := hx.SplitMix(seed ^ uint64(round*131+w+1)*0x9e3779b97f4a7c15)
+			fl := make([]float64, rows)
+			var sb strings.Builder
+			sb.WriteByte('[')
+			for r := range fl {
+				f := c16Float(&rng, int(rng.Next()%8))
+				for math.IsNaN(f) || math.IsInf(f, 0) {
+					f = c16Float(&rng, int(rng.Next()%8))
+				}
+				fl[r] = f
+				if r > 0 {
+					sb.WriteByte(',')
+				}
+				sb.WriteString(`{"f":` + strconv.FormatFloat(f, 'f', -1, 64) + "}")
+			}
+			sb.WriteByte(']')
+			jobs[w] = job{qframe.New(map[string]interface{}{"f": fl}), sb.String()}
+			values += rows
+		}
+		got := make([]string, workers)
+		errs := make([]error, workers)
+		var wg sync.WaitGroup
+		start := make(chan struct{})
+		for w := range jobs {
+			wg.Add(1)
+			go func(w int) {
+				defer wg.Done()
+				<-start
+				var buf bytes.Buffer
+				errs[w] = jobs[w].qf.ToJSON(&buf)
+				got[w] = buf.String()
+			}(w)
+		}
+		close(start)
+		wg.Wait()
+		for w := range jobs {
+			if errs[w] != nil {
+				t.Fatalf("ToJSON: %v", errs[w])
+			}
+			if got[w] != jobs[w].want {
+				i := 0
+				for i < len(got[w]) && i < len(jobs[w].want) && got[w][i] == jobs[w].want[i] {
+					i++
+				}
+				lo := i - 60
+				if lo < 0 {
+					lo = 0
+				}
+				clipAt := func(s string) string {
+					hi := i + 60
+					if hi > len(s) {
+						hi = len(s)
+					}
+					return s[lo:hi]
+				}
+				t.Fatalf("round %d: %d frames written to JSON at the same time; the output of writer %d differs from the strconv.FormatFloat document at byte %d:\n got …%s…\nwant …%s…",
+					round, workers, w, i, clipAt(got[w]), clipAt(jobs[w].want))
+			}
+		}
+	}
+	evC16.AddEvals(values)
+	evC16.CaseHash(true, seed^0xc0c0, func() string {
+		return fmt.Sprintf("%d rounds of %d concurrent ToJSON calls, %d generated floats each", nrounds, workers, rows)
+	}, "concurrent-writers")
 }
